@@ -535,7 +535,9 @@ def emit():
             L.append("def {}{} : Nat := {}\n".format(name, ps, expr))
     L.append(extract_dispatch.emit(cli_specs(), tool_templates(),
                                    extract_dispatch.graph_actions(parse("cnfgen/clitools/graph_args.py")),
-                                   extract_dispatch.graph_constructions(parse("cnfgen/clitools/graph_args.py"))))
+                                   extract_dispatch.graph_constructions(parse("cnfgen/clitools/graph_args.py")),
+                                   goptions=extract_dispatch.graph_options(parse("cnfgen/clitools/graph_args.py")),
+                                   gformats=extract_dispatch.graph_formats(parse("cnfgen/graphs.py"))))
     L.append("end Cnfgen.Gen")
     return "\n".join(L) + "\n"
 
